@@ -247,3 +247,17 @@ package dsl
 //@   requires tc != nil
 //@   ensures dual_class: typeof(result) == *TypeChangeOptionalTypeChanged
 //@   ensures swaps_old_new: result.(*TypeChangeOptionalTypeChanged).Old == old(tc.New) && result.(*TypeChangeOptionalTypeChanged).New == old(tc.Old)
+
+// ---- C06 / C09 / C11: an evolution error for ANY listed previous version fails validation ----------------
+//@ func ValidateEvolution
+//@   property C06,C09,C11
+//@   invariant 2: !errSeen(validateChanges)
+//@   ensures evolution_error_propagates: errSeen(validateChanges) ==> result2 != nil
+//@ func validateChanges
+//@   property C06,C09
+//@   ensures errors_become_error: len(errorSink.Errors) > 0 ==> result1 != nil
+
+// The visitor and rewriter frameworks make no dynamic calls except to the callback they are given (the Visitor /
+// Rewriter objects have unexported fields and are only built by Visit/VisitWithContext/Rewrite/RewriteWithContext).
+//@ callback-parametric file pkg/dsl/visitor.go
+//@ callback-parametric file pkg/dsl/rewriter.go
